@@ -33,6 +33,20 @@ def mk(atoms):
     return ("str", out)
 
 
+def lit_norm(v, depth=0):
+    if depth > 6 or not isinstance(v, tuple) or not v:
+        return v
+    if v[0] == "str":
+        if all(a[0] == "c" for a in v[1]):
+            return ("lit", "".join(a[1] for a in v[1]))
+        return v
+    if v[0] == "v" and len(v) == 3 and isinstance(v[2], list):
+        return ("v", v[1], [lit_norm(x, depth + 1) for x in v[2]])
+    if v[0] in ("tuple", "array", "iterv", "pieces") and len(v) > 1 and isinstance(v[1], list):
+        return (v[0], [lit_norm(x, depth + 1) for x in v[1]]) + tuple(v[2:])
+    return v
+
+
 def is_str(v):
     return isinstance(v, tuple) and v and v[0] == "str"
 
@@ -190,6 +204,14 @@ class StrFold:
 
     # -------------------------------------------------------------- the hook
     def hook(self, callee, args, s):
+        """the call hook proper; a text that consists of literal characters only is handed back as a plain string literal, so that literal patterns
+        (`matches!(part, "." | "/")`) and the evaluator's own comparisons apply to it"""
+        r = self._hook(callee, args, s)
+        if isinstance(r, dict):
+            return {"env": {k: lit_norm(v) for k, v in r.get("env", {}).items()}, "val": lit_norm(r.get("val"))}
+        return lit_norm(r)
+
+    def _hook(self, callee, args, s):
         ev = self.ev
         c = callee or ""
         m = c.split("::")[-1]
@@ -242,6 +264,18 @@ class StrFold:
             if m == "nth" and len(args) == 2 and args[1][0] == "lit":
                 i = a0[2] + args[1][1]
                 return SOME(a0[1][i]) if i < len(a0[1]) else NONE
+        # ---- join of a concrete sequence of texts
+        if m in ("join", "concat") and a0 is not None and a0[0] in ("array", "iterv") and isinstance(a0[1], list) and all(as_str(x) is not None for x in a0[1]):
+            sep = as_str(args[1]) if len(args) > 1 else mk([])
+            if sep is not None:
+                out = []
+                for i, x in enumerate(a0[1]):
+                    if i:
+                        out += sep[1]
+                    out += as_str(x)[1]
+                return mk(out)
+        if m in ("with_capacity",) and "String" in c:
+            return mk([])
         # ---- zero runs:  (a..b).map(|_| "0").collect::<String>()   "0".repeat(k)
         if m == "map" and len(args) == 2 and a0 is not None and a0[0] == "range" and args[1][0] == "closure" and len(args[1]) == 4:
             return ("mapped", a0, args[1])
